@@ -224,11 +224,27 @@ func (r *Run) checkLookup(P string) {
 				ok = false
 				det = append(det, "lookup is not into createOperationHashMap(ops): "+mt.String())
 			}
-			found := false
+			// the key is the very value passed as current commitment, or one of the values it can take
+			found := lk.Index == args[3]
 			for _, cv := range cVals {
 				if cv == lk.Index {
 					found = true
 				}
+			}
+			if !found {
+				all := true
+				for _, kl := range phiLeaves(lk.Index) {
+					in := false
+					for _, cv := range cVals {
+						if cv == kl {
+							in = true
+						}
+					}
+					if !in {
+						all = false
+					}
+				}
+				found = all && len(phiLeaves(lk.Index)) > 0
 			}
 			if !found {
 				ok = false
